@@ -20,7 +20,7 @@ git apply -R MUTATION.diff
 echo "== demo without change (expect ok)"; go test ${DEMO_FLAGS:-} -vet=off -count=1 -run 'Demo' $PKG > $D/demo_without.txt 2>&1; WO=$?; tail -2 $D/demo_without.txt
 git apply MUTATION.diff
 mv $DEMO /tmp/demo_$ID.go.bak
-echo "== full suite with change (expect green)"; go test -vet=off -count=1 ./... > $D/suite_with.txt 2>&1; S=$?; grep -v "no test files" $D/suite_with.txt | grep -v "^ok" | head -5
+echo "== full suite with change (expect green)"; go test -vet=off -count=1 -timeout 30m ./... > $D/suite_with.txt 2>&1; S=$?; grep -v "no test files" $D/suite_with.txt | grep -v "^ok" | head -5
 echo "== check $P against the change (worktree $WT)"
 OUT=/tmp/gsout_$ID; rm -rf $OUT; mkdir -p $OUT
 (cd /verif && GOSYM_REPO=$WT GOSYM_OUT=$OUT timeout 1800 ./bin/gosym check $P > $D/check.txt 2>&1; echo $? > $D/check.exit)
